@@ -14,7 +14,7 @@ RULE = ('stage sequences of 1-4 mapping documents with priority / !del / !merge 
         'spellings of paths existing elsewhere: a.b, k[0]), optional yaml alias placing a container of an earlier document under a further key; '
         'frame relation: paths the last document neither mentions nor has below a deleting node are unchanged; non-trivial = '
         '>=2 stages and a deleting node or priority tag at depth >=1 in the unwrapped documents; distinct = hash of the case')
-BUDGET = {'quick': (4, 500), 'thorough': (16, 8000)}
+BUDGET = {'quick': (4, 750), 'thorough': (16, 8000)}
 ASSUMPTIONS = ['documented exception: if a stage root is an explicit !del and the unwrapped result is empty the wrapped key may be removed',
                'soundness limits of DESIGN.md section 6 (no nested differing priority tags, no !del on falsy scalars / empty containers)']
 
